@@ -326,10 +326,14 @@ impl SecondaryStorage {
     pub(super) fn apply_drop_table(&self, entry: &DropTableEntry) -> StorageResult<()> {
         let DropTableEntry { table_id } = entry.clone();
 
-        self.tables
+        let table = self
+            .tables
             .write()
             .remove(&table_id)
             .ok_or_else(|| TracedStorageError::not_found("table", table_id.table_id))?;
+        table
+            .dropped
+            .store(true, std::sync::atomic::Ordering::SeqCst);
         self.catalog.drop_table(table_id);
 
         Ok(())
